@@ -5,6 +5,8 @@
 -/
 import LispModel.Equal
 import LispModel.Spec.StructEq
+import LispModel.Read
+import LispModel.Print
 namespace LispModel.Baseline
 open LispModel
 
@@ -36,6 +38,18 @@ end
 theorem d8_missing_key_counterexample :
     equalQ₀ (.map [("ʞa", .nil)]) (.map [("ʞb", .nil)]) = true ∧
     structEqB (.map [("ʞa", .nil)]) (.map [("ʞb", .nil)]) = false := by
+  decide
+
+/-! ### D10 (C06, C15): the reader un-escaped with U+029E as a scratch character -/
+def unescape₀ (s : List Char) : List Char :=
+  Read.replaceAll [kwMarker] ['\\']
+    (Read.replaceAll ['\\', 'n'] ['\n']
+      (Read.replaceAll ['\\', '"'] ['"']
+        (Read.replaceAll ['\\', '\\'] [kwMarker] s)))
+
+/-- the string `aʞb` is printed as `"aʞb"` and was read back as `a\b` -/
+theorem d10_marker_in_string_counterexample :
+    Print.prString true "aʞb" = ['"', 'a', 'ʞ', 'b', '"'] ∧ unescape₀ ['a', 'ʞ', 'b'] = ['a', '\\', 'b'] := by
   decide
 
 end LispModel.Baseline
